@@ -242,25 +242,38 @@ def r1(ctx):
     ctx.touch(rc)
     tbl = {}
     NAMES = {-1: "Less", 0: "Equal", 1: "Greater"}
+    def record_cmp(ts, h, ln=0):
+        def oracle(kind, a, b2, site):
+            if kind in ("cmp", "eq"):
+                a, b2 = str(a), str(b2)
+                c = None
+                if "timestamp" in a and "timestamp" in b2:
+                    c = ts if a.startswith("self") else -ts
+                elif "hash" in a and "hash" in b2:
+                    c = h if a.startswith("self") else -h
+                elif "len" in a and "len" in b2:
+                    c = ln if a.startswith("self") else -ln
+                if c is None:
+                    return None
+                return (c == 0) if kind == "eq" else c
+            return None
+        try:
+            ret, hp, ev = E.run(f, rc.path, [E.href("self"), E.href("other")], {"self": E.Tok("self"), "other": E.Tok("other")}, oracle)
+            return E.describe(ret, f)
+        except E.Unsupported as e:
+            return "UNSUPPORTED-FORM: %s" % e
     for ts in (-1, 0, 1):
         for h in (-1, 0, 1):
-            def oracle(kind, a, b2, site, ts=ts, h=h):
-                if kind == "cmp":
-                    a, b2 = str(a), str(b2)
-                    if "timestamp" in a and "timestamp" in b2:
-                        return ts if a.startswith("self") else -ts
-                    if "hash" in a and "hash" in b2:
-                        return h if a.startswith("self") else -h
-                return None
-            try:
-                ret, hp, ev = E.run(f, rc.path, [E.href("self"), E.href("other")], {"self": E.Tok("self"), "other": E.Tok("other")}, oracle)
-                tbl[(NAMES[ts], NAMES[h])] = E.describe(ret, f)
-            except E.Unsupported as e:
-                tbl[(NAMES[ts], NAMES[h])] = "UNSUPPORTED-FORM: %s" % e
+            tbl[(NAMES[ts], NAMES[h])] = record_cmp(ts, h)
     want = {(NAMES[ts], NAMES[h]): (NAMES[ts] if ts != 0 else NAMES[h]) for ts in (-1, 0, 1) for h in (-1, 0, 1)}
     bad = {k: v for k, v in tbl.items() if v != want[k]}
     ctx.check(not bad, "C02.R1", "<sync::Record as std::cmp::Ord>::cmp", "lexicographic(timestamp,hash)",
               "cmp as a function of (cmp of timestamps, cmp of hashes): deviating cells %s; spec: the timestamp decides, the hash breaks ties" % bad, rc.sp)
+    # the order is total over distinct records: two records that differ only in the content length do not compare Equal (they are
+    # different entries - put() would keep whichever came first, and the replica's state would depend on the order of arrival)
+    tie = {NAMES[ln]: record_cmp(0, 0, ln) for ln in (-1, 1)}
+    ctx.check(tie == {"Less": "Less", "Greater": "Greater"}, "C02.R1", "<sync::Record as std::cmp::Ord>::cmp", "distinct-records-never-compare-equal(len)",
+              "records equal in timestamp and hash, by cmp of their content lengths: %s; spec: ordered by it (a total order over the whole record)" % tie, rc.sp)
     pc = f.body("<sync::Record as std::cmp::PartialOrd>::partial_cmp")
     ctx.touch(pc)
     calls = [t for _, t in pc.calls()]
